@@ -1264,6 +1264,21 @@ for _ in range(6):
     rows.append(ev)
 print(registered)
 print(' '.join(str(r) for r in rows))
+# a variant class whose table of variants is a class-level dict: an existing message class registered again under its tag
+from cryptoparser.tls import subprotocol as S
+try:
+    S.TlsHandshakeMessageVariant.register_variant_parser(S.TlsHandshakeType.SERVER_HELLO_DONE, S.TlsHandshakeServerHelloDone)
+    print('registered')
+except Exception as e:
+    print('register failed: ' + repr(e))
+rows = []
+for _ in range(60):
+    rows.append(c19.measure(S.TlsHandshakeMessageVariant, bytes([0x0e, 0, 0, 0]))[0])
+print(' '.join(str(r) for r in rows[::10] + rows[-1:]))
+rows = []
+for _ in range(60):
+    rows.append(c19.measure(S.TlsHandshakeMessageVariant, bytes([0xee, 0, 0, 0]))[0])
+print(' '.join(str(r) for r in rows[::10] + rows[-1:]))
 """
 
 
@@ -1291,6 +1306,16 @@ def run_history(run):
         run.finding('history-work:HttpHeaderFields',
                     'the same 1 KB header block costs {} line events in consecutive parses ({}): work depends on what was '
                     'parsed before'.format(rows, lines[0]), {'kind': 'history', 'cls': 'HttpHeaderFields', 'rows': rows})
+    if len(lines) >= 5:
+        for what, line in (('accepted ServerHelloDone', lines[3]), ('rejected message type', lines[4])):
+            rows = [int(x) for x in line.split()]
+            run.evaluations += 60
+            run.notes.append('history probe ({}; TlsHandshakeMessageVariant, {}): events of parse 1, 11, ..., 60: {}'.format(lines[2], what, rows))
+            if max(rows) > min(rows) * 1.05 + 50:
+                run.finding('history-work:TlsHandshakeMessageVariant',
+                            'the same 4-byte handshake message ({}) costs {} line events over 60 consecutive parses ({}): work '
+                            'depends on what was parsed before'.format(what, rows, lines[2]),
+                            {'kind': 'history', 'cls': 'TlsHandshakeMessageVariant', 'rows': rows})
 
 
 def run(run, driver_ok=True, deep=False):  # pylint: disable=redefined-outer-name
